@@ -203,8 +203,10 @@ def execute(job):
         info['sibling'] = r[5]
     # ---- block C: the first object again, at another temperature
     vals2 = dict(vals)
+    breaks = lib.BREAKS.get(trange)            # polynomial families: exactly ON the segment bounds
     vals2['T'] = lib.draw_T(cell['shape'], var['ttype'] if var['ttype'] != 'T0' else 'float', rnd,
-                            *lib.T_RANGE[trange])
+                            *lib.T_RANGE[trange], breaks=breaks, pick=var.get('brk', 0))
+    info['on_break'] = trange if breaks else ''
     r = _block(obj, cell, vals2, job['units'][:(1 if cell['isrxn'] else 2)], comp, events, mism, 'C')
     info['repeat'] = r[5]
     info['values'] = {k: (v if isinstance(v, (int, float, str, bool, type(None))) else repr(v))
@@ -287,7 +289,7 @@ def make_jobs(ctx, data):
                 var = {'ttype': ttypes[rot % len(ttypes)],
                        'pvar': lib.P_VARIANTS[(rot // 5) % len(lib.P_VARIANTS)],
                        'xvar': lib.X_VARIANTS[(rot // 3) % len(lib.X_VARIANTS)],
-                       'comp': lib.COMP_VARIANTS[(rot // 2) % len(lib.COMP_VARIANTS)]}
+                       'comp': lib.COMP_VARIANTS[(rot // 2) % len(lib.COMP_VARIANTS)], 'brk': rot}
                 jobs.append({'cell': c, 'units': us, 'base': base, 'seed': seed, 'var': var})
             ci += 1
     return jobs
@@ -402,6 +404,12 @@ def run(ctx):
         if not cell['tgiven']:
             bump('T_defaulted', cell['cls'], n)
         bump('second_use_of_object', cell['cls'], info['repeat'])
+        if info.get('on_break'):
+            fam = cell['cls'] + ('/' + cell['species'] if cell['isrxn'] else '')
+            kind = 'array_T_containing_a_break_temperature' if cell['shape'] == 'array' else 'scalar_T_on_a_break_temperature'
+            bump(kind, fam, info['repeat'])
+            if not cell['isrxn'] and not cell['cov'] and cell['phase'] == 'condensed':
+                bump(kind + '_no_misc_model', fam, info['repeat'])
         if n:
             asked.setdefault((cell['cls'], cell['getter'], cell['mass'], cell['energy']), set()).update(
                 u['ustr'] for u in job['units'])
@@ -433,7 +441,13 @@ def run(ctx):
                              for m in ('g', 'kg')],
                 'phase': [c + '/' + ph for c in ('Nasa', 'Nasa9', 'Shomate') for ph in ('gas', 'condensed')],
                 'T_defaulted': ['StatMech', 'Nasa', 'Reaction', 'SurfaceReaction', 'HarmonicVib', 'Reference'],
-                'second_use_of_object': sorted({j['cell']['cls'] for j in jobs})}
+                'second_use_of_object': sorted({j['cell']['cls'] for j in jobs}),
+                'array_T_containing_a_break_temperature': ['Nasa', 'Nasa9', 'Shomate', 'Reaction/Nasa',
+                                                           'ChemkinReaction/Nasa', 'SurfaceReaction/Nasa'],
+                'scalar_T_on_a_break_temperature': ['Nasa', 'Nasa9', 'Shomate', 'Reaction/Nasa',
+                                                    'ChemkinReaction/Nasa', 'SurfaceReaction/Nasa'],
+                'array_T_containing_a_break_temperature_no_misc_model': ['Nasa', 'Nasa9', 'Shomate'],
+                'scalar_T_on_a_break_temperature_no_misc_model': ['Nasa', 'Nasa9', 'Shomate']}
         empty = [(k, v) for k, vs in want.items() for v in vs if not vac.get(k, {}).get(v)]
         if empty:
             raise core.MachineryError('vacuous: no successful call pair for %r' % (empty[:12],))
